@@ -11,6 +11,7 @@ mod c05;
 mod c06;
 mod tables;
 mod zcore;
+mod c07;
 mod c08;
 mod c09;
 mod c10;
@@ -47,6 +48,7 @@ fn main() {
         | "c04" => c04::run(&opts),
         | "c05" => c05::run(&opts),
         | "c06" => c06::run(&opts),
+        | "c07" => c07::run(&opts),
         | "c08" => c08::run(&opts),
         | "c09" => c09::run(&opts),
         | "c10" => c10::run(&opts),
